@@ -320,7 +320,7 @@ def tversky_index(
                 "tversky_index() 'weight' batch size does not match 'input' and 'target'"
             )
         if weight.shape[1] == 1:
-            weight = weight.repeat((1,) + (num_classes,) + (1,) * (weight.ndim - 2))
+            weight = weight.repeat((1,) + (y.shape[1],) + (1,) * (weight.ndim - 2))
         if weight.shape != y.shape:
             raise ValueError(
                 "tversky_index() 'weight' shape must be compatible with 'input' and 'target'"
